@@ -194,4 +194,115 @@ Proof.
       intros k0 j1 j2 (c1 & H1 & J1) (c2 & H2 & J2). apply (HU k0); [exists c1|exists c2]; split; auto; right; auto.
 Qed.
 
+Lemma app_inv_head_N (a b c : list N) : a ++ b = a ++ c -> b = c.
+Proof. apply app_inv_head. Qed.
+
+Theorem register_subtree_ids f : forall m cur i w r w',
+  register_subtree T f m cur i w = Val (r, w') -> WalkSpec m cur i w w'.
+Proof.
+  induction f as [|f IH]; intros m cur i w r w' H; [discriminate H|].
+  rewrite register_subtree_S in H.
+  apply wbind_inv in H as [(n & w1 & E & H) | (e & E & _)].
+  2: { apply get_node_inv in E as (? & _ & [=] & _). }
+  apply get_node_inv in E as (n' & Hn & [= <-] & ->).
+  apply wbind_inv in H as [(b & w1 & Hb & H) | (e & E & _)].
+  2: { apply noer_is_identifiable in E as (a & [=]). }
+  assert (w1 = w) by (eapply ro_is_identifiable; eauto). subst w1.
+  apply wbind_inv in H as [(cur' & w1 & E & H) | (e & E & _)].
+  2: { exfalso. revert E. clear. intros E.
+       assert (N0 : noer (if b then (do nm <- item_name T n;
+                          let p := match nm with Some x => cur ++ [47] ++ x | None => cur end in
+                          add_identifiable m p i;; wret p)%W else wret cur)).
+       { destruct b; noer_tac; try apply noer_item_name. }
+       apply N0 in E as (a & [=]). }
+  (* the own entry *)
+  assert (OWN : exists s, SegOf T w i s /\ cur' = cur ++ s /\ w_nodes w1 = w_nodes w /\
+            forall k j, HasId w1 m k j <-> (b = true /\ k = cur' /\ j = i) \/ ((b = false \/ k <> cur') /\ HasId w m k j)).
+  { destruct b.
+    - apply wbind_inv in E as [(nm & w2 & Enm & E) | (e & Enm & [=])].
+      assert (w2 = w) by (eapply ro_item_name; eauto). subst w2.
+      apply wbind_inv in E as [(u & w2 & Ea & E) | (e & Ea & [=])].
+      apply wret_inv in E as ([= ->] & ->).
+      apply add_identifiable_HasId in Ea as (Nn & Hh).
+      exists (match nm with Some x => [47] ++ x | None => [] end). split; [|split; [|split; [exact Nn|]]].
+      + exists n, true. split; auto. split; auto. right. split; auto. exists nm. auto.
+      + destruct nm; [reflexivity | rewrite app_nil_r; reflexivity].
+      + intros k j. rewrite Hh. split.
+        * intros [(-> & ->)|(Hne & Hk)]; [left; auto | right; auto].
+        * intros [(_ & -> & ->)|([[=]|Hne] & Hk)]; [left; auto | right; auto].
+    - apply wret_inv in E as ([= ->] & ->). exists []. split; [|split; [|split; [reflexivity|]]].
+      + exists n, false. auto.
+      + rewrite app_nil_r. reflexivity.
+      + intros k j. split; [intros Hk; right; auto | intros [([=] & _)|(_ & Hk)]; exact Hk]. }
+  clear E. destruct OWN as (s & Hseg & -> & Nn1 & Hh1).
+  apply wbind_inv in H as [(isr & w2 & E & H) | (e & E & _)].
+  2: { apply wl_inv in E as (? & _ & [=] & _). }
+  apply wl_inv in E as (isr' & _ & [= <-] & ->).
+  apply wbind_inv in H as [(u & w2 & E & H) | (e & E & _)].
+  2: { exfalso. revert E. clear. intros E.
+       assert (N0 : noer (if isr then (do cd <- wl (character_data T n);
+                          match cd with Some (DString r0) => add_reference_origin m r0 i | _ => wret tt end)%W else wret tt)).
+       { noer_tac. }
+       apply N0 in E as (a & [=]). }
+  assert (REF : w_nodes w2 = w_nodes w1 /\ forall k j, HasId w2 m k j <-> HasId w1 m k j).
+  { destruct isr.
+    - apply wbind_inv in E as [(cd & w3 & E1 & E) | (e & E1 & [=])].
+      apply wl_inv in E1 as (cd' & _ & [= <-] & ->).
+      destruct cd as [[| r0 | |]|]; try (apply wret_inv in E as (_ & ->); split; [reflexivity | intros; tauto]).
+      apply add_reference_origin_HasId in E. exact E.
+    - apply wret_inv in E as (_ & ->). split; [reflexivity | intros; tauto]. }
+  clear E. destruct REF as (Nn2 & Hh2).
+  assert (Ew2 : w_nodes w2 = w_nodes w) by congruence.
+  destruct (rs_kids_ids m (cur ++ s) (register_subtree T f m (cur ++ s)) w
+              (fun c wa ra wb _ Hc => IH m (cur ++ s) c wa ra wb Hc)
+              (fun c => noer_register_subtree T f m (cur ++ s) c)
+              (n_content n) w2 r w' Ew2 H) as (Nn3 & KA & KB & KC).
+  (* the entries of i = its own entry + the entries of its children *)
+  assert (JSPLIT : forall k j, J cur i w k j <->
+            (IsIdent T w i /\ k = cur ++ s /\ j = i) \/ JL (cur ++ s) (n_content n) w k j).
+  { intros k j. split.
+    - intros (q & HP & HI & ->). inversion HP as [i0 s0 Hs0 | i0 n0 c j0 s0 q0 Hs0 Hn0 Hin HP0]; subst.
+      + left. rewrite (SegOf_fun _ _ _ _ Hs0 Hseg). auto.
+      + right. rewrite Hn in Hn0. injection Hn0 as <-. rewrite (SegOf_fun _ _ _ _ Hs0 Hseg).
+        exists c. split; auto. exists q0. split; auto. split; auto. rewrite app_assoc. reflexivity.
+    - intros [(HI & -> & ->)|(c & Hc & q & HP & HI & ->)].
+      + exists s. split; [constructor; exact Hseg|auto].
+      + exists (s ++ q). split; [econstructor; eauto|]. split; auto. rewrite app_assoc. reflexivity. }
+  assert (Hbt : IsIdent T w i -> b = true).
+  { intros (n2 & Hn2 & Hi). rewrite Hn in Hn2. injection Hn2 as <-. rewrite Hb in Hi. injection Hi as ->. reflexivity. }
+  split; [congruence|]. split; [|split].
+  - (* A *)
+    intros k j Hk. destruct (KA k j Hk) as [Hk2|HJ].
+    + apply Hh2, Hh1 in Hk2. destruct Hk2 as [(-> & -> & ->)|(_ & Hk0)]; auto.
+      right. apply JSPLIT. left. split; auto. exists n. auto.
+    + right. apply JSPLIT. auto.
+  - (* B *)
+    intros k j Hk.
+    assert (exists j1, HasId w1 m k j1).
+    { destruct b.
+      - destruct (bytes_dec k (cur ++ s)) as [->|Hne].
+        + exists i. apply Hh1. left. auto.
+        + exists j. apply Hh1. right. auto.
+      - exists j. apply Hh1. right. auto. }
+    destruct H0 as (j1 & Hj1). apply Hh2 in Hj1. eapply KB; eauto.
+  - (* C *)
+    intros HU k j HJ.
+    assert (HUL : UniqueL (cur ++ s) (n_content n) w).
+    { intros k0 j1 j2 (c1 & Hc1 & q1 & P1 & I1 & ->) (c2 & Hc2 & q2 & P2 & I2 & Eq).
+      apply app_inv_head_N in Eq. subst q2.
+      apply (HU j1 j2 (s ++ q1)); [eapply RP_down with (c := c1); eauto | eapply RP_down with (c := c2); eauto | exact I1 | exact I2]. }
+    apply JSPLIT in HJ. destruct HJ as [(HI & -> & ->)|HJ].
+    + assert (Hw1 : HasId w1 m (cur ++ s) i) by (apply Hh1; left; auto).
+      apply Hh2 in Hw1. destruct (KB _ _ Hw1) as (j' & Hj').
+      destruct (KA _ _ Hj') as [Hold|(c & Hc & q & P & I & Eq)].
+      * rewrite (HasId_fun _ _ _ _ _ Hw1 Hold). exact Hj'.
+      * assert (q = []). { rewrite <- (app_nil_r (cur ++ s)) in Eq at 1. apply app_inv_head_N in Eq. auto. }
+        subst q. assert (i = j').
+        { apply (HU i j' s); auto.
+          - constructor. exact Hseg.
+          - rewrite <- (app_nil_r s). econstructor; eauto. }
+        subst j'. exact Hj'.
+    + apply (KC HUL). exact HJ.
+Qed.
+
 End RegId.
